@@ -169,5 +169,27 @@ pub fn run(input: &Value) -> Value {
         }
         let _ = std::fs::remove_dir_all(&arch_dir);
     }
-    json!({"plans": out_plans})
+    // decode_dirs: [{"shard": n, "dir": path}] -> what archive recovery returns for an archive directory written by a live engine
+    let mut decoded = Vec::new();
+    for d in input["decode_dirs"].as_array().unwrap_or(&empty) {
+        let shard = d["shard"].as_u64().unwrap_or(0) as usize;
+        let dir = PathBuf::from(d["dir"].as_str().unwrap_or(""));
+        let rec = WalArchiveRecovery::new(shard, dir.clone());
+        let mut per_archive = serde_json::Map::new();
+        if let Ok(list) = rec.list_archives() {
+            for p in list {
+                let name = p.file_name().map(|n| n.to_string_lossy().to_string()).unwrap_or_default();
+                let v = match WalArchive::read_from_file(&p) {
+                    Ok(a) => json!({"log_id": a.header.log_id, "entry_count": a.header.entry_count,
+                                    "entries": a.body.entries.iter().map(entry_json).collect::<Vec<_>>()}),
+                    Err(e) => json!({"error": e.to_string()}),
+                };
+                per_archive.insert(name, v);
+            }
+        }
+        let all = rec.recover_all().map(|v| v.iter().map(entry_json).collect::<Vec<_>>());
+        decoded.push(json!({"shard": shard, "archives": Value::Object(per_archive),
+                            "recover_all": match all { Ok(v) => json!(v), Err(e) => json!({"error": e.to_string()}) }}));
+    }
+    json!({"plans": out_plans, "decoded": decoded})
 }
